@@ -261,6 +261,14 @@ impl Decoder for Codec {
                     };
                 }
 
+                // A fragmented message must be completed before another data message starts;
+                // only control frames may be interleaved with its fragments (RFC 6455 §5.4).
+                if matches!(opcode, OpCode::Text | OpCode::Binary)
+                    && self.flags.contains(Flags::CONTINUATION)
+                {
+                    return Err(ProtocolError::ContinuationStarted);
+                }
+
                 match opcode {
                     OpCode::Continue => {
                         if self.flags.contains(Flags::CONTINUATION) {
